@@ -151,6 +151,100 @@ theorem deploy_of_admissible {T : Type} (t : T) (L : Leaves) (f : RFault) (inv :
   obtain ⟨h1, h2, h3, h4, h5, h6, h7⟩ := (admissible_iff L).mp h
   simp [deploy, h1, h2, h3, h4, h5, h6, h7]
 
+/-! ### the deployment reconciler -/
+
+theorem updateLoop_zero {T : Type} (prev : OD T) (t : T) :
+    updateLoop prev t 0 = (some (some t), [.update], false) := by
+  simp [updateLoop, retrySteps]
+
+/-- Below the retry budget: `n` refused Updates, then the accepted one. -/
+theorem updateLoop_lt {T : Type} (prev : OD T) (t : T) (n : Nat) (h : n < retrySteps) :
+    updateLoop prev t n = (some (some t), List.replicate n .updateConflict ++ [.update], false) := by
+  simp [updateLoop, h]
+
+/-- Budget used up: nothing of ours is stored, error. -/
+theorem updateLoop_ge {T : Type} (prev : OD T) (t : T) (n : Nat) (h : retrySteps ≤ n) :
+    updateLoop prev t n = (prev, List.replicate retrySteps .updateConflict, true) := by
+  have : ¬ n < retrySteps := by omega
+  simp [updateLoop, this]
+
+/-- The loop ends without error only with the fresh template stored by an accepted Update. -/
+theorem updateLoop_ok {T : Type} (prev : OD T) (t : T) (n : Nat) (h : (updateLoop prev t n).2.2 = false) :
+    (updateLoop prev t n).1 = some (some t) ∧ Write.update ∈ (updateLoop prev t n).2.1 := by
+  unfold updateLoop at h ⊢
+  split <;> simp_all
+
+theorem updateLoop_err {T : Type} (prev : OD T) (t : T) (n : Nat) (h : (updateLoop prev t n).2.2 = true) :
+    (updateLoop prev t n).1 = prev := by
+  unfold updateLoop at h ⊢
+  split <;> simp_all
+
+/-- **`Reconcile` returns nil only with the fresh template stored** — for every prior state and
+every fault or interleaving, in particular for any number of Conflict answers. -/
+theorem reconcile_ok {T : Type} (od : OD T) (t : T) (f : RFault) (h : (reconcile od t f).2.2 = false) :
+    (reconcile od t f).1 = some (some t) ∧ Write.update ∈ (reconcile od t f).2.1 := by
+  unfold reconcile at h ⊢
+  by_cases h1 : f = .get
+  · simp [h1] at h
+  · simp only [h1, if_false] at h ⊢
+    cases od with
+    | none =>
+      by_cases h2 : f = .create
+      · simp [h2] at h
+      · by_cases h3 : f = .update
+        · simp [h3] at h
+        · simp only [h2, h3, if_false, Bool.or_eq_false_iff] at h ⊢
+          have := updateLoop_ok (some none) t f.conflicts h.1
+          exact ⟨this.1, List.mem_cons_of_mem _ this.2⟩
+    | some o =>
+      by_cases h3 : f = .update
+      · simp [h3] at h
+      · simp only [h3, if_false, Bool.or_eq_false_iff] at h ⊢
+        exact updateLoop_ok (some o) t f.conflicts h.1
+
+/-- `Reconcile` returns an error before anything of the new template is stored, unless the fault
+is a late one (after the Update). -/
+theorem reconcile_err {T : Type} (od : OD T) (t : T) (f : RFault) (hf : f ≠ .late)
+    (h : (reconcile od t f).2.2 = true) :
+    (reconcile od t f).1 = od ∨ (od = none ∧ (reconcile od t f).1 = some none) := by
+  unfold reconcile at h ⊢
+  by_cases h1 : f = .get
+  · simp [h1]
+  · simp only [h1, if_false] at h ⊢
+    cases od with
+    | none =>
+      by_cases h2 : f = .create
+      · simp [h2]
+      · by_cases h3 : f = .update
+        · simp [h3]
+        · simp only [h2, h3, if_false, hf, decide_false, Bool.or_false] at h ⊢
+          right; exact ⟨trivial, updateLoop_err _ _ _ h⟩
+    | some o =>
+      by_cases h3 : f = .update
+      · simp [h3]
+      · simp only [h3, if_false, hf, decide_false, Bool.or_false] at h ⊢
+        left; exact updateLoop_err _ _ _ h
+
+theorem reconcile_none {T : Type} (od : OD T) (t : T) :
+    reconcile od t .none =
+      (some (some t), (match od with | none => [.create, .update] | some _ => [.update]), false) := by
+  cases od <;> simp [reconcile, RFault.conflicts, updateLoop_zero]
+
+/-- **Any number of conflicts below the budget**: the Update is retried until it is accepted;
+the fresh template is stored, no error. -/
+theorem reconcile_conflict_lt {T : Type} (od : OD T) (t : T) (n : Nat) (h : n < retrySteps) :
+    reconcile od t (.conflict n) =
+      (some (some t),
+       (match od with | none => [.create] | some _ => []) ++ List.replicate n .updateConflict ++ [.update], false) := by
+  cases od <;> simp [reconcile, RFault.conflicts, updateLoop_lt _ _ _ h]
+
+/-- **Any number of conflicts at or beyond the budget**: error, the template is not changed. -/
+theorem reconcile_conflict_ge {T : Type} (od : OD T) (t : T) (n : Nat) (h : retrySteps ≤ n) :
+    reconcile od t (.conflict n) =
+      ((match od with | none => some none | some _ => od),
+       (match od with | none => [.create] | some _ => []) ++ List.replicate retrySteps .updateConflict, true) := by
+  cases od <;> simp [reconcile, RFault.conflicts, updateLoop_ge _ _ _ h]
+
 theorem deploy_of_load_failure {T : Type} (t : T) (L : Leaves) (f : RFault) (inv : Inv) (od : OD T)
     (h : L.load = false) : deploy t L f inv od = ⟨false, .loadError, od, [], false⟩ := by
   simp [deploy, h]
